@@ -30,6 +30,30 @@ CHECKS = {
   "runtime monitoring with fault injection: crash-simulating strict in-memory FS (crash before every k-th mutating FS operation), recovery judged against the model's log prefixes",
   "Every mutating file-system operation boundary of seeded scenarios (first open, apply, Sync, close/reopen, snapshot recovery in all format pairs, stopped recovery) is used as a crash point (all k for small scenarios, every distinct site + random k for larger ones, plus second crashes during recovery); after each crash a new FSM is opened and must report an index >= the last completed Sync, show exactly the model state at that index, and reach the no-crash final state after replay with per-entry results equal to the model's.",
   "Fault model as stated in the property (strict MemFS: unsynced data and directory entries lost, synced ones kept); no torn writes / partial persistence; pebble trusted as a library."),
+ "C06": ("exploration",
+  "runtime monitoring: real Simple/Cached log readers over a scripted dragonboat-contract log (differential cached vs uncached + interval oracle), and the real LogServer.Replicate over gRPC on a real compacting Raft log judged against the harness's own proposal record",
+  "Reader level: seeded query sequences shaped like Replicate calls (several calls in progress, late compaction events, all entry types, size limits on exact boundaries, cache sizes 1..100) judged per query; server level: every start index 0..applied+2 after real histories with real log compaction, three message-size limits, cached and uncached server, byte-exact command comparison.",
+  "The scripted log mirrors dragonboat v4's LogReader contract as read from the module source; cache staleness between a compaction and the delivery of its event is allowed as production delivers it asynchronously."),
+ "C08": ("exploration",
+  "runtime monitoring: snapshot transfer oracle against the model (writes between prepare and save, dirty receivers, all format pairs), stop-signal sweep over the stream, read/install overlap schedules in child processes with process death / hang as observed outcomes",
+  "Receivers must equal the saver at prepare time (content, applied and leader index), keep nothing of their previous content, survive a restart; interrupted saves/recovers must report ErrSnapshotStopped and leave the old state readable; reads overlapping an install (eager, lazily consumed, in-flight, via callback and via util/iter.Pull) must show old or new state or fail cleanly. Three ways in which such reads bring the process down on the unchanged tree are listed as known findings.",
+  "Crash (not stop) during save/recover is C04's enumeration; dragonboat's documented concurrency (Lookup concurrent with RecoverFromSnapshot) is assumed reachable; thorough tier runs the overlap children under the race detector."),
+ "C13": ("exploration",
+  "runtime monitoring: real kv.LFSM against an independent CAS-map model with replica differencing and snapshot transfer; real RaftStore histories checked with porcupine; race detector on concurrent Lookup/Update/Snapshot",
+  "Seeded set/delete sequences with stale/current/zero/future versions and nasty keys are applied to two real replicas with different batching; every entry result and every get/exists/glob/list answer is compared with the model and across replicas, snapshots taken at random points must restore to equal stores; concurrent client histories on a real Raft-backed store are checked for linearizability against a CAS-register model.",
+  "Behaviour on missing keys is observed, not judged (the statement constrains existing keys); glob matcher of the model cross-checked against path.Match."),
+ "C15": ("exploration",
+  "runtime monitoring with a deterministic scheduler: real table.Manager lease calls over the real metadata state machine, every store operation gated; depth-first enumeration of all interleavings for the listed scripts; linearization-point oracle; race-detector stress over a real RaftStore",
+  "All interleavings at the granularity of single metadata-store operations are enumerated for every script of 2 nodes x <=2 calls and 3 nodes x 1 call (exhaustive), sampled/enumerated for larger ones; at each successful lease write the previous record must be absent, the caller's or expired, the shadow holder set never exceeds one, returns only remove the caller's lease.",
+  "Expiry decided from +-1h durations, never from sleeping; managers reused per worker (NodeIDs only compared for equality); exhaustive flags per script are in the evidence."),
+ "C17": ("exploration",
+  "runtime monitoring (black box): the real regatta binary (leader and follower) probed with generated credentials over gRPC; certificate oracle = predicate over the construction parameters of run-time minted certificates; state read back after every refused call",
+  "Every method of the Maintenance and Tables services (enumerated from the service descriptors) is called with 47 credential classes (missing, near-miss, wrong scheme, other service's token ...) and must answer Unauthenticated unless the token is exactly right, with no effect visible through the API; KV/Cluster stay reachable; TLS endpoints (in-process TLSInfo.ServerConfig and the binary's --api.* flags) accept only certificates chaining to the trusted CA with exactly the allowed CN / valid for the allowed hostname, decided by RPC round trips.",
+  "Only wiring reachable from the command line of the real binary is observable; accept-side variants outside the statement are recorded, not judged."),
+ "C19": ("exploration",
+  "runtime monitoring: real shardView/mergeShardInfo/gossip delegate (through the export shim) fed Raft-consistent update multisets in every permutation (<=6 updates) and through multi-view gossip scripts, judged against the join; live header monitor on a 3-node cluster with forced leader transfers; race detector",
+  "After every delivery step each view must equal the join of what reached it and never move to a lower term or from a leader to none; final views must be identical across all deliveries of a multiset (exhaustive for <=6 updates); live: per (observer,node,shard) the term in response headers never decreases and the leader never returns to 0, and headers converge to Raft's answer after transfers.",
+  "Multisets are Raft-consistent by construction (one leader per term, one membership per config-change index); convergence bounds are watchdogs (inconclusive on expiry), a stale-leader-after-transfer observation is recorded in the evidence, not judged."),
 }
 
 NOT_YET = {}
